@@ -30,6 +30,12 @@ CHECKS = {
              text="Decides that every acknowledged entry kind has a storage effect on every path (necessary because recovery reads storage only) and that the log write precedes the storage write. Value equality of recovered entities is not decided.", ref="§5 C16"),
  "C18": dict(tech="lock-scope rule (quota check and increment inside one write-guard live range of one function), dominance over I/O, release on error exits, assign-vs-add classification of usage writes",
              text="Decides the race clause for every interleaving: check and count cannot be separated by another writer because they share one critical section; reservation precedes I/O and is released on failure; recovery assigns usage.", ref="§5 C18"),
+ "C14": dict(tech="must-pass-through / dominance over the CFG of persist_snapshot with path-role classification of std::fs calls (every CFG edge between effect calls is a crash point); branch separation of the persist error; single-flag path refinement for the boot gate",
+             text="Decides the crash clause on every path of persist_snapshot (no early destruction, write->fsync->rename->dir fsync->marker->fsyncs), that restore needs both artefacts, that a persist failure is not acknowledged, plus the boot-restore and cumulativeness clauses (two known findings).", ref="§5 C14"),
+ "C19": dict(tech="call-graph reachability matrix (front end x mutation kind) to persistence functions with a storage effect; boot path reachability",
+             text="Decides a necessary condition per cell: without a path from the endpoint's write branch to a persistence call with a storage effect, an acknowledged write of that kind cannot survive a restart. Ten cells fail today (known findings).", ref="§5 C19"),
+ "C32": dict(tech="HIR match-arm facts (variant -> callee sets) for the state machine, shared must-pass storage-effect rule (C16), CHA reachability for nondeterminism sources, must-pass in RaftNode::write",
+             text="Decides the wiring of each replicated request kind to its own persistence function with a storage effect, error surfacing, determinism of apply (no RNG/env/clock outside entity timestamps) and apply-before-acknowledge.", ref="§5 C32"),
 }
 
 NA = {
